@@ -12,7 +12,9 @@ import vlib
 
 HARNESSES = ("pending_h",)
 MLS = ("pending",)
-THEOREMS = []
+THEOREMS = ["C17_at_most_once", "C17_pairing", "C17_serials", "C17_serial_sequence", "C17_serial_nonzero", "C17_serial_wraps", "C17_serial_tie",
+            "C17_cancel_silent_partial", "C17_cancel_silent_refuted", "C17_fault_only_null_link", "C17_no_fault_refuted",
+            "C17_close_completes_refuted", "C17_queued_reply_completes_once", "C17_timeout_completes_once"]
 
 MAXCALLS = 6
 FAULT_REPLAYS = 12
